@@ -39,7 +39,7 @@ FUNCTIONS = [
     "unified_planning.plans.plan:ActionInstance.__init__",
     "unified_planning.model.types:is_compatible_type",
 ]
-BOUNDS = ("declared types: bool, int[lo,hi] and real[lo,hi] with symbolic lo <= hi in [-3,3], int[0,inf), int(-inf,5], unbounded int, user types T, S<T; "
+BOUNDS = ("(quick ranges; thorough: bounds in [-12,12], values in [-40,40], k in [-20,19]) declared types: bool, int[lo,hi] and real[lo,hi] with symbolic lo <= hi in [-3,3], int[0,inf), int(-inf,5], unbounded int, user types T, S<T; "
           "values: int v symbolic in [-8,8] and rational (2k+1)/2 with k symbolic in [-4,3], true/false, objects of T, S and an unrelated type U, fluent expressions (same type; Boolean; "
           "int[a,b] with symbolic a <= b), parameter expressions, g + c with concrete bounds and constant; calls: set_initial_value (fresh and over an existing value), add_fluent with "
           "default_initial_value (Fluent object or name+type), Problem(initial_defaults=...) followed by add_fluent, add_effect on InstantaneousAction / "
@@ -53,6 +53,12 @@ ASSUMPTIONS = ["hash-consing tables keyed syntactically (node sharing is not the
 
 V_LO, V_HI = -8, 8
 B_LO, B_HI = -3, 3
+
+
+def _ranges(wide):
+    """quick: values in [-8,8], bounds in [-3,3]; thorough (wide): values in [-40,40], bounds in [-12,12]."""
+    global V_LO, V_HI, B_LO, B_HI
+    V_LO, V_HI, B_LO, B_HI = (-40, 40, -12, 12) if wide else (-8, 8, -3, 3)
 
 FTYPES = ["bool", "int-sym", "real-sym", "int-unb", "int-lo", "int-hi", "user-T", "user-S"]
 VKINDS_CONST = ["int", "half", "true", "obj-T", "obj-S", "obj-U"]
@@ -274,10 +280,11 @@ def _same(ctx, before, after, tag, desc):
 # ------------------------------------------------------------------------------------------------
 # harnesses
 # ------------------------------------------------------------------------------------------------
-def h_initial(ctx, target, ftypes, vkinds, form=None):
+def h_initial(ctx, target, ftypes, vkinds, form=None, wide=False):
     """target in explicit / explicit-over / fluent-default / type-default."""
     import unified_planning as up
 
+    _ranges(wide)
     env = ctx.fresh_env(hashcons="syntactic")
     w = _world(ctx, env)
     ftype = ctx.pick("ftype", ftypes)
@@ -383,11 +390,12 @@ def _action_snapshot(a, kind):
     return [id(e) for e in a.effects]
 
 
-def h_effect(ctx, container, ftypes, vkinds, ekind="assign"):
+def h_effect(ctx, container, ftypes, vkinds, ekind="assign", wide=False):
     """container in ia / da / pb; ekind in assign / increase."""
     import unified_planning as up
     from unified_planning.model import GlobalStartTiming, StartTiming
 
+    _ranges(wide)
     env = ctx.fresh_env(hashcons="syntactic")
     w = _world(ctx, env)
     ftype = ctx.pick("ftype", ftypes)
@@ -443,10 +451,11 @@ def h_effect(ctx, container, ftypes, vkinds, ekind="assign"):
     ctx.witness("accepted")
 
 
-def h_param(ctx, ftypes, vkinds):
+def h_param(ctx, ftypes, vkinds, wide=False):
     import unified_planning as up
     from unified_planning.plans import ActionInstance
 
+    _ranges(wide)
     env = ctx.fresh_env(hashcons="syntactic")
     w = _world(ctx, env)
     ftype = ctx.pick("ftype", ftypes)
@@ -477,6 +486,8 @@ def shards(tier, seed):
     out = []
 
     def sh(name, fn, budget, **kw):
+        if tier != "quick":
+            kw["wide"] = True
         out.append(dict(name=name, fn=fn, kwargs=kw, budget=budget, per_path=40))
 
     b = 150 if tier == "quick" else 900
